@@ -481,9 +481,15 @@ func (p *Proxy) handle(ctx *Context, conn net.Conn, brw *bufio.ReadWriter) error
 	if err != nil {
 		return err
 	}
-	defer req.Body.Close()
-
 	session := ctx.Session()
+	defer func() {
+		// Closing the body reads what is left of it from the connection, and a
+		// connection that has been hijacked is not ours to read from any more.
+		if !session.Hijacked() {
+			req.Body.Close()
+		}
+	}()
+
 	ctx, err = withSession(session)
 	if err != nil {
 		log.Errorf("martian: failed to build new context: %v", err)
